@@ -378,6 +378,12 @@ def _task_families(thorough):
                     + unit * 8, little=False)))
         fam.append(('big-strings', raw_message(
             's' * 200, (b'\xff\xff\xff\x7f' + b'a' * 60) * (size // 64))))
+    # header fields repeated many times (legal on the wire: the field array
+    # is just an array) in front of a body of comparable size
+    for m in (100, 800):
+        for name, fn in scalable_families():
+            if name.startswith('repeat'):
+                fam.append((name, fn(m)))
     for tag, raw in fam:
         rep = {'part': 'mut', 'raw': raw.hex() if len(raw) < 4000 else
                None, 'family': tag}
@@ -385,6 +391,96 @@ def _task_families(thorough):
         check_protocol(res, raw, tag, rep)
     res.count('states', len(fam))
     res.count('nontrivial', len(fam))
+    return res
+
+
+def message_with_fields(arr, sig, body, little=True, mtype=1):
+    """a message whose header-field array is exactly arr (+ the signature)"""
+    arr = list(arr)
+    if sig is not None:
+        arr.append([8, Var('g', sig)])
+    e = _Loose(0, little)
+    for t, v in zip(_HDR, [ord('l') if little else ord('B'), mtype, 0, 1,
+                           len(body), 9, arr]):
+        e.put(t, v)
+    hdr = bytes(e.buf)
+    hdr += b'\0' * ((-len(hdr)) % 8)
+    return hdr + body
+
+
+def scalable_families():
+    """(name, m -> raw): inputs whose length grows linearly with m; decoding
+    work has to grow linearly too"""
+    base = [[1, Var('o', '/a')], [3, Var('s', 'M')]]
+    out = []
+
+    def body_of(sig, m, little=True):
+        vals = {'au': [list(range(m))], 'as': [['ab'] * m],
+                'a(yv)': [[[i % 256, Var('u', i)] for i in range(m)]],
+                'a{sv}': [[['k%d' % i, Var('s', 'v')] for i in range(m)]],
+                'aau': [[[i, i] for i in range(m)]],
+                'av': [[Var('au', [i]) for i in range(m)]],
+                'a(sau)': [[['s', [i]] for i in range(m)]]}[sig]
+        return R.encode(sig, vals, little=little)
+
+    # repeated fields: every header-field code (and an unknown one) m times,
+    # in front of a body with m elements
+    for code, var in ((8, Var('g', 'au')), (1, Var('o', '/a/b')),
+                      (2, Var('s', 'a.b')), (3, Var('s', 'Mem')),
+                      (6, Var('s', 'a.b')), (7, Var('s', ':1.5')),
+                      (9, Var('u', 0)), (5, Var('u', 7)),
+                      (20, Var('s', 'zz')), (21, Var('au', [1, 2])),
+                      (8, Var('g', 'a(sau)'))):
+        def fn(m, code=code, var=var):
+            sig = var.value if code == 8 else 'au'
+            return message_with_fields(base + [[code, var]] * m, None
+                                       if code == 8 else sig,
+                                       body_of(sig, m))
+        out.append(('repeat-field:%d:%s' % (code, var.sig), fn))
+    for sig in ('au', 'as', 'a(yv)', 'a{sv}', 'aau', 'av', 'a(sau)'):
+        out.append(('grow:' + sig,
+                    lambda m, sig=sig: message_with_fields(
+                        base, sig, body_of(sig, m))))
+        out.append(('grow-be:' + sig,
+                    lambda m, sig=sig: message_with_fields(
+                        base, sig, body_of(sig, m, False), little=False)))
+    return out
+
+
+def _lines_of(raw):
+    from txdbus import message as M
+    with core.Watchdog(120):
+        try:
+            st, v, n = meter.metered(lambda: M.parseMessage(raw, [3, 4]),
+                                     200 * budget(len(raw)))
+        except core.ExecutionTimeout:
+            st, v, n = 'budget', None, 200 * budget(len(raw))
+    return st, n
+
+
+def _task_scaling(task):
+    """work at size 4m against work at size m: a + b*m satisfies
+    w(4m) <= 4*w(m); anything with a quadratic term that matters does not"""
+    idx, sizes = task
+    name, fn = scalable_families()[idx]
+    res = core.Result()
+    res.count('states', len(sizes))
+    for m in sizes:
+        res.count('evaluations')
+        res.count('transitions', 2)
+        res.count('nontrivial')
+        raw1, raw4 = fn(m), fn(4 * m)
+        st1, n1 = _lines_of(raw1)
+        st4, n4 = _lines_of(raw4)
+        res.setmax('max_lines', n4)
+        res.outcome((name.split(':')[0], st1, st4))
+        if n4 > 5 * n1 + 5000:
+            res.violation('%s/superlinear/%s' % (PROP, name),
+                          'family %s: %d line events for %d bytes (m=%d) but '
+                          '%d for %d bytes (m=%d): more than linear growth'
+                          % (name, n1, len(raw1), m, n4, len(raw4), 4 * m),
+                          {'part': 'scaling', 'idx': idx, 'm': m},
+                          size=len(raw1))
     return res
 
 
@@ -417,6 +513,9 @@ def run(ctx):
                         for i in range(len(base_messages()))])
     ctx.map(_task_sigs, [(c, L) for c in SIG_ALPHABET])
     ctx.map(_task_families, [not ctx.quick])
+    sizes = (50, 200) if ctx.quick else (50, 200, 800, 2000)
+    ctx.map(_task_scaling, [(i, sizes)
+                            for i in range(len(scalable_families()))])
 
 
 def replay(data):
@@ -428,6 +527,8 @@ def replay(data):
             raw = bytes.fromhex(data['raw'])
             check_parse(res, raw, 'replay', data)
             check_protocol(res, raw, 'replay', data)
+    elif data['part'] == 'scaling':
+        res = _task_scaling((data['idx'], (data['m'],)))
     elif data['part'] == 'sig':
         body = dict(_bodies())[data['body']]
         check_parse(res, raw_message(data['sig'], body), 'replay', data)
